@@ -141,7 +141,7 @@ def lognormal_roundtrip(c):
 
 ASSUMPTIONS = [
     "exp/log/sqrt/lgamma/erf/gammaincc are uninterpreted real functions (exp/log/sqrt with their algebraic axioms); float constants such as sqrt(2*pi) are the exact rationals of their IEEE values",
-    "NOT reachable (declared): integrals of densities, sums of pmf, moments as integrals, isi, Victor-Purpura metric laws: bounded numeric checks in native/c20.py",
+    "NOT reachable (declared): integrals of densities, sums of pmf, moments as integrals, isi, Victor-Purpura triangle inequality: bounded numeric checks in native/c20.py (Victor-Purpura bounds, identity, symmetry, cost monotonicity: loop contract in contracts/c20_vp.py)",
 ]
 
 MUTANTS = [
